@@ -1,3 +1,4 @@
+import operator
 from dataclasses import dataclass, field
 from datetime import date
 from uuid import UUID
@@ -245,11 +246,10 @@ class RuleAttributeCondition(RuleProcessingCondition):
             )
 
         try:
-            return bool(getattr(value, self.op_methods[self.op])(compare_value))
-        # bool(NotImplemented) used to return `True` with Python<3.14
-        except TypeError:
-            return True
-        except AttributeError:  # operation not supported by value type
+            # Use the operator functions instead of the value's comparison methods: the latter
+            # return NotImplemented (which is truthy) for e.g. int.__ge__(5, 10.0).
+            return bool(getattr(operator, self.op_methods[self.op].strip("_"))(value, compare_value))
+        except TypeError:  # operation not supported between the value types
             return False
 
 
